@@ -208,3 +208,51 @@ def amaku_solution(view: DatasetView, n0: dict, t: Fraction, digits=60):
                 s += (mpmath.mpf(c.numerator) / mpmath.mpf(c.denominator)) * e[j]
         out[idx[i]] = s
     return out
+
+
+def subset_dataset(rd, view: DatasetView, roots, name="verif_subset", reverse_links=False):
+    """A smaller dataset built through the PUBLIC constructors: the descendant-closed sub-chain of
+    `roots`, re-indexed.  (Restricting C, C^-1 to a descendant-closed index set gives the
+    eigenvector matrices of the restricted decay graph, so every calculation on it must agree with
+    the same calculation on the full dataset.)  Returns (DecayData, list of names)."""
+    import numpy as np
+    import sympy
+    from scipy import sparse
+    dd = view.dd
+    idx = sorted(view.descendants(roots))
+    sd, sy = dd.scipy_data, dd.sympy_data
+    c = sd.matrix_c.tocsr()[idx, :][:, idx]
+    ci = sd.matrix_c_inv.tocsr()[idx, :][:, idx]
+    scipy_data = rd.decaydata.DecayMatricesScipy(np.asarray(sd.atomic_masses)[idx], np.asarray(sd.decay_consts)[idx],
+                                                 sparse.csr_matrix(c), sparse.csr_matrix(ci))
+    sel = list(idx)
+    cs = sympy.SparseMatrix(len(idx), len(idx), {})
+    cis = sympy.SparseMatrix(len(idx), len(idx), {})
+    pos = {g: k for k, g in enumerate(idx)}
+    for (i, j), v in sy.matrix_c.todok().items():
+        if i in pos and j in pos:
+            cs[pos[i], pos[j]] = v
+    for (i, j), v in sy.matrix_c_inv.todok().items():
+        if i in pos and j in pos:
+            cis[pos[i], pos[j]] = v
+    masses = sympy.Matrix([sy.atomic_masses[g] for g in sel])
+    consts = sympy.Matrix([sy.decay_consts[g] for g in sel])
+    sympy_data = rd.decaydata.DecayMatricesSympy(masses, consts, cs, cis)
+
+    def pick(arr):
+        out = np.empty(len(idx), dtype=object)
+        for k, g in enumerate(idx):
+            out[k] = arr[g]
+        return out
+    hld = np.array([tuple(dd.hldata[g]) for g in idx], dtype=object)
+    if reverse_links:
+        # the same decay scheme with every nuclide's progeny / fraction / mode lists written in the opposite order
+        def pick(arr):   # noqa: F811
+            out = np.empty(len(idx), dtype=object)
+            for k, g in enumerate(idx):
+                out[k] = list(arr[g])[::-1]
+            return out
+    ds = rd.decaydata.DecayData(name, pick(dd.bfs), dd.float_year_conv, hld, pick(dd.modes),
+                                np.array([view.names[g] for g in idx]), pick(dd.progeny), scipy_data,
+                                sympy_data, dd.sympy_year_conv)
+    return ds, [view.names[g] for g in idx]
